@@ -509,6 +509,15 @@ def run_case(case: dict, ctx: dict) -> dict:
                 else:
                     got = unwrap(lctx.config.sections()[section])
                     d = first_diff(got, want)
+                    if not d:
+                        # sections of the other languages are part of the effective configuration too (templates see
+                        # them as ln.<other>.options): files and documents that touch them must merge the same way
+                        for other_section, other_model in sorted(mdl.sections.items()):
+                            if other_section != section:
+                                d = first_diff(unwrap(lctx.config.sections().get(other_section)), model_plain(other_model))
+                                if d:
+                                    d = "[%s]%s" % (other_section, d)
+                                    break
                     for k in (want or {}):
                         states.add("%s|%s" % (hashlib.sha256("|".join(trace).encode()).hexdigest()[:10], k))
                     if d:
